@@ -271,3 +271,79 @@ def check_c04(root, pid, tier, seed, replay):
     return lsv.emit(root, res, st)
 
 SPECIAL['C04'] = check_c04
+
+# ------------------------------------------------------------------------------------------------ C16
+def check_c16(root, pid, tier, seed, replay):
+    res = lsv.Result(pid, tier, seed)
+    st = lsv.Build(root).run()
+    lsv.base_obligations(root, pid, res, st)
+    stats = lsv.new_stats()
+    # the op-sequence form of the decoders is exercised by the explorer's push/push_str/with_capacity ops (C01);
+    # here: the real decoders against String's, and the model's acceptance automaton against std's
+    u8len, u16len = (5, 6) if tier == 'quick' else (6, 7)
+    for kind, ml in (('utf8', u8len), ('utf16', u16len)):
+        n, mm, lines, out = run_sweep(root, [kind, ml], 3000)
+        stats['steps'] += n; stats['cases'] += 1
+        res.cov['sweep_' + kind] = {'maxlen': ml, 'checked': n, 'mismatches': mm, 'exhaustive_over_class_alphabet': True}
+        if mm != 0:
+            stats['monitor_failures'] += 1
+            rp = lsv.write_replay(root, pid, 'sweep_' + kind, '# sweep %s %d: LeanString vs String\n%s\n' % (kind, ml, '\n'.join(lines[:5])))
+            res.violations.append(('sweep %s: %s' % (kind, lines[0] if lines else out[-200:]), rp, bool(lines), 'decode_mismatch'))
+    # tie of the Coq automaton utf8_valid to std::str::from_utf8 (all sequences up to length 4 over the 20-class alphabet)
+    rn = os.path.join(root, '.cache', 'harness-target', 'release', 'sweep')
+    dump = os.path.join(root, '.cache', 'tmp', 'utf8_dump_%d.txt' % os.getpid())
+    os.makedirs(os.path.dirname(dump), exist_ok=True)
+    rc, out = lsv.sh('%s utf8 %d dump > %s' % (rn, 4 if tier == 'quick' else 5, dump), 1800)
+    md = os.path.join(root, '.cache', 'model', 'model_driver')
+    rc, out = lsv.sh([md, '--utf8', dump], 3000)
+    os.remove(dump)
+    m = re.search(r'utf8_valid compared (\d+) disagreements (\d+)', out)
+    ncmp, ndis = (int(m.group(1)), int(m.group(2))) if m else (0, -1)
+    res.cov['utf8_valid_model_vs_std'] = {'compared': ncmp, 'disagreements': ndis}
+    stats['compared'] += ncmp; stats['steps'] += ncmp
+    if ndis != 0:
+        stats['disagreements'] += 1
+        bad = [l for l in out.splitlines() if l.startswith('DISAGREE')]
+        stats['disagree_samples'].append(('utf8', 0, (bad[0] if bad else out[-200:]), '# the Coq automaton utf8_valid disagrees with std::str::from_utf8\n' + '\n'.join(bad[:5]) + '\n'))
+    stats['nontrivial'] = set(range(3))
+    res.samples = [['utf8 class alphabet 00 41 7f 80 8f 90 9f a0 bf c0 c2 df e0 e1 ed ef f0 f1 f4 f5, all sequences up to length %d' % u8len,
+                    'utf16 alphabet 0041 00e9 d7ff d800 dbff dc00 dfff e000, all sequences up to length %d' % u16len]]
+    lsv.finish_without_search(root, pid, res, stats)
+    res.stats = stats
+    return lsv.emit(root, res, st)
+
+SPECIAL['C16'] = check_c16
+
+# ------------------------------------------------------------------------------------------------ C19
+def check_c19(root, pid, tier, seed, replay):
+    res = lsv.Result(pid, tier, seed)
+    st = lsv.Build(root).run()
+    lsv.base_obligations(root, pid, res, st)
+    stats = lsv.new_stats()
+    hdir = os.path.join(root, 'harness', 'conv')
+    import shutil
+    if os.path.exists(os.path.join(lsv.REPO, 'Cargo.lock')):
+        shutil.copy(os.path.join(lsv.REPO, 'Cargo.lock'), os.path.join(hdir, 'Cargo.lock'))
+    tgt = os.path.join(root, '.cache', 'conv-target')
+    rc, out = lsv.sh(['cargo', 'build', '--release', '--offline', '--target-dir', tgt], 1800, cwd=hdir, env={'RUSTFLAGS': '--cfg lean_string_verif'})
+    res.oblige('build: crate with --features serde,arbitrary', rc == 0, out[-1200:] if rc != 0 else '')
+    if rc == 0:
+        count = 20000 if tier == 'quick' else 2000000
+        rc, out = lsv.sh([os.path.join(tgt, 'release', 'lsv-conv'), str(seed), str(count)], 3000)
+        m = re.search(r'checked (\d+) mismatches (\d+)', out)
+        n, mm = (int(m.group(1)), int(m.group(2))) if m else (0, -1)
+        stats['steps'] = n; stats['cases'] = 4; stats['nontrivial'] = set(['serialize', 'deserialize_str', 'deserialize_bytes', 'arbitrary'])
+        res.cov['conv'] = {'checked': n, 'mismatches': mm, 'seed': seed,
+                           'what': 'serde_json text, StrDeserializer / BorrowedStrDeserializer / StringDeserializer / BytesDeserializer / BorrowedBytesDeserializer, Unstructured (arbitrary, arbitrary_take_rest, size_hint) against String / &str'}
+        res.samples = [['all byte sequences up to length 4 over the UTF-8 class alphabet through both bytes visitors',
+                        'strings with escapes / multi-byte chars at lengths 0,1,7,15,16,17,18,31,32,33,64']]
+        if mm != 0:
+            stats['monitor_failures'] += 1
+            lines = [l for l in out.splitlines() if l.startswith('MISMATCH')]
+            rp = lsv.write_replay(root, pid, 'conv', '# lsv-conv %d %d\n%s\n' % (seed, count, '\n'.join(lines[:10])))
+            res.violations.append(('conv: %s' % (lines[0] if lines else out[-200:]), rp, bool(lines), 'conv_mismatch'))
+    lsv.finish_without_search(root, pid, res, stats)
+    res.stats = stats
+    return lsv.emit(root, res, st)
+
+SPECIAL['C19'] = check_c19
